@@ -270,8 +270,11 @@ func lengths(thorough bool) []int {
 
 func run(c *vf.Ctx) {
 	c.Rule("every registered cipher x MAC pair (AEADs once) x {payload lengths 1..300 (thorough 1..4200) + 27 neighbours of 512,1024,2048,4096,32768,35000} arranged as 3-packet sequences " +
-		"(each length once in each position, non-monotonic) x start seqno {0,1,2^32-2}; x IV carry classes x 5-packet sequences; 600-packet runs across the seqno wrap; one 1257-packet connection per mode with payload 1..1100 ascending then descending (buffer growth/reuse); " +
-		"payload lengths maxPacket-24..maxPacket (thorough -70); newPacketCipher/generateKeyMaterial x {SHA1,256,384,512} x both directions. " +
+		"(each length once in each position, non-monotonic) x start seqno {0,1,2^32-2} (lengths above 32000: 2^32-2 only); x IV carry classes x 5-packet sequences (first IV class also from seqno 0xfe, 0xfffe, 0xfffffe, 0x7ffffffe: every byte carry and the sign bit); 600-packet runs across the seqno wrap; one 1257-packet connection per mode with payload 1..1100 ascending then descending (buffer growth/reuse); " +
+		"payload lengths maxPacket-24..maxPacket (thorough -70); newPacketCipher/generateKeyMaterial x {SHA1,256,384,512} x both directions; " +
+		"(G) three connections per mode sending 2^k+{-1,0,1,7,8,9,15,16,17}, k=4..17, and 27 neighbours of 8192,16384,65536 (thorough: of every 2^k, k=9..17) in the orders ends-inwards / ascending / middle-outwards across the seqno wrap; " +
+		"(K) per mode x {key, iv (not GCM), macKey, payload} the caller overwrites that buffer after the constructor / writePacket call returned (non-copying hooks): wire bytes equal those of the copying path, payload buffers incl. spare capacity untouched after return, reader built the same way reads the stream, results of readCipherPacket overwritten by the caller; in every plan each slice connectionState.readPacket returned is either overwritten at once or compared again after the whole stream was read; " +
+		"(R) per mode x {seqno 0, 2^32-4, strict KEX}: client and server newTransport pair, two key changes via prepareKeyChange from ONE kexResult per side (buffers with spare capacity, overwritten afterwards), different algorithms per direction, NEWKEYS under the old keys, sequence numbers per RFC 4253 6.4. " +
 		"non-trivial = distinct (mode, payload length, position in sequence) whose packet was read back AND independently decoded; " +
 		"oracle = verif/ref/sshpkt (own CTR/CBC/GCM/ChaCha20/Poly1305, KAT-validated) + reader round trip + connectionState sequence numbers")
 	c.Assume("crypto/aes, crypto/des, crypto/rc4, crypto/hmac and the standard hashes are correct; key/IV/payload values come from a fixed alphabet plus seeded classes")
@@ -280,28 +283,43 @@ func run(c *vf.Ctx) {
 	c.Set("modes", len(ms))
 	lens := lengths(c.Thorough)
 	c.Set("payload_lengths", len(lens))
-	n := len(lens)
 	seqStarts := []uint32{0, 1, 1<<32 - 2}
 
 	t0 := time.Now()
 	lap := func(name string) { c.Set("wall_s_plan_"+name, time.Since(t0).Seconds()); t0 = time.Now() }
 	// ---- A: main grid -------------------------------------------------------------
+	// The 54 lengths above 32000 carry about two thirds of all bytes of this plan; they are
+	// combined with the start value that wraps inside the sequence only (plans D and G send
+	// large packets from other sequence numbers). The other start values use the sub-grid of
+	// lengths up to 4101.
+	var lensSmall []int
+	for _, l := range lens {
+		if l <= 32000 {
+			lensSmall = append(lensSmall, l)
+		}
+	}
 	type job struct {
-		m   mode
-		i   int
-		seq uint32
+		m    mode
+		i    int
+		seq  uint32
+		grid []int
 	}
 	var jobs []job
 	for _, m := range ms {
 		for _, s := range seqStarts {
-			for i := 0; i < n; i++ {
-				jobs = append(jobs, job{m, i, s})
+			grid := lensSmall
+			if s == 1<<32-2 {
+				grid = lens
+			}
+			for i := range grid {
+				jobs = append(jobs, job{m, i, s, grid})
 			}
 		}
 	}
 	c.ParallelFor(len(jobs), func(j int) {
 		jb := jobs[j]
-		pl := []int{lens[jb.i], lens[n-1-jb.i], lens[(jb.i+n/2)%n]}
+		n := len(jb.grid)
+		pl := []int{jb.grid[jb.i], jb.grid[n-1-jb.i], jb.grid[(jb.i+n/2)%n]}
 		var payloads [][]byte
 		for k, l := range pl {
 			var p []byte
@@ -381,18 +399,16 @@ func run(c *vf.Ctx) {
 		runSequence(c, m, m.keys(c, ivs[0], 4), 5, payloads, "F", false)
 	})
 	lap("F")
-	// ---- G: ONE connection per mode, very different sizes back to back: 2^k + {-1,0,1,7,8,9,
-	// 15,16,17} for k = 4..17 and 27 neighbours of 8192, 16384, 65536, 131072 (thorough: of
-	// every 2^k, k = 9..17), in an order that alternates between the large and the small end.
-	c.ParallelFor(len(ms), func(j int) {
-		m := ms[j]
-		sizes := mixedSizes(c.Thorough)
+	// ---- G: three connections per mode with very different sizes back to back (see mixedSizes)
+	const gParts = 3
+	c.ParallelFor(len(ms)*gParts, func(j int) {
+		m, part := ms[j/gParts], j%gParts
 		var payloads [][]byte
-		for i, l := range sizes {
+		for i, l := range mixedSizes(c.Thorough)[part] {
 			payloads = append(payloads, fixType(c.Bytes("payloadG", i%5, l)))
 		}
 		ivs := ivClasses(c, "iv/"+m.String(), m.ci.IVSize)
-		runSequence(c, m, m.keys(c, ivs[0], 6), uint32(0)-uint32(len(sizes)/2), payloads, "G", true)
+		runSequence(c, m, m.keys(c, ivs[0], 6+part), uint32(0)-uint32(len(payloads)/2), payloads, fmt.Sprint("G/", part), true)
 	})
 	lap("G")
 	// ---- K: the caller owns its buffers ------------------------------------------------
